@@ -27,7 +27,8 @@ def models(tier, seed):
 def _shape(rnd):
     sh = {}
     if rnd.random() < 0.8:
-        sh['value'] = rnd.randint(1, 5)
+        sh['value'] = rnd.choice([1, 2, 3, 4, 5, None, 0, False, '', 0.0, [], 'UNDEF'])
+        sh['vkw'] = rnd.random() < 0.3
     src = rnd.choice(SOURCES)
     if src is not None:
         sh['src'] = src
@@ -79,10 +80,14 @@ def _stim(rnd):
     actions.sort(key=lambda a: (a['t'], a.get('yields', 0)))
     # keep the stop request before the sends of the same step
     actions.sort(key=lambda a: (a['t'], a.get('yields', 0), 0 if a['op'] != 'ext' else 1))
+    if rnd.random() < 0.08:
+        blocks.append({'kind': 'badref'})
     s = {'check': 'C14', 'api': api, 'blocks': blocks, 'actions': actions, 'pre_abort': False, 'linger': 24,
          'pre_finalize': rnd.random() < 0.3,
          'pre_ops': [{'dest': rnd.choice(dests), 'shape': _shape(rnd)}],
          'post_ops': [{'dest': rnd.choice(dests), 'shape': _shape(rnd)}]}
+    if blocks[-1]['kind'] == 'badref':
+        s['pre_finalize'] = False
     if rnd.random() < 0.3:
         s['names'] = rnd.sample(['ok', 'x1', '_x', '_ext_a', '__', '_1', 'ext_', 'Ext', '_ctrlx', 'a_b'], 4)
         s['autonames'] = rnd.sample(['Foo', 'Bar_1', 'extra', 'Ext', 'my_ext_'], 2)
